@@ -206,11 +206,28 @@ def fresh_digests(prop, seed, indices, hashseed="12345"):
     if p.returncode != 0:
         raise RuntimeError("fresh-interpreter digest run failed: %s\n%s" % (p.returncode, p.stderr[-2000:]))
     out = {}
+    xproc = {}
     for line in p.stdout.splitlines():
         if line.startswith("DIGEST "):
             _, i, d = line.split()
             out[int(i)] = d
+        elif line.startswith("XPROC "):
+            _, i, js = line.split(" ", 2)
+            xproc[int(i)] = js
+    fresh_digests.last_xproc = xproc
     return out
+
+
+def xproc_of_replay(prop, path, hashseed):
+    env = dict(os.environ)
+    env["PYTHONHASHSEED"] = hashseed
+    env["PYTHONPATH"] = VERIF + os.pathsep + env.get("PYTHONPATH", "")
+    p = subprocess.run([sys.executable, "-m", "toastysim.cli", prop, "--xproc-replay", path],
+                       env=env, capture_output=True, text=True, timeout=900, cwd=VERIF)
+    for line in p.stdout.splitlines():
+        if line.startswith("XPROC 0 "):
+            return line[len("XPROC 0 "):]
+    return None
 
 
 # -- minimisation ------------------------------------------------------------
@@ -349,6 +366,17 @@ def replay_file(prop, path):
     doc = json.load(open(path))
     os.environ["TOASTYSIM_TIER"] = doc.get("tier", "quick")
     mod = load_prop(prop)
+    if doc.get("xproc_check"):
+        # the violation is a difference BETWEEN interpreters: execute the recorded run under two hash seeds
+        xa = xproc_of_replay(prop, path, "12345")
+        xb = xproc_of_replay(prop, path, "999")
+        if xa is not None and xb is not None and xa != xb:
+            print("replayed: kind=%s sig=%s (two interpreters disagree: identical to recording)" % (doc["violation"]["kind"], doc["violation"]["sig"]))
+            print("detail: interpreter A: %s | interpreter B: %s" % (xa[:600], xb[:600]))
+            print("VIOLATION property=%s replay=%s" % (prop, path))
+            return 1
+        print("replay of %s: the two interpreters agree (recorded: %s)" % (path, doc["violation"]["sig"]))
+        return 0
     res = run_replay(mod, doc["choices"], keep_kinds=True)
     if "harness_error" in res:
         print("HARNESS-ERROR replay raised: %s" % res["harness_error"])
@@ -460,15 +488,23 @@ def check(prop, tier="quick", seed=0, runs=None, jobs=None, max_s=None, out=sys.
     # process - reported in the evidence, not an error of the simulation.
     fresh_pairs = 0
     history_dependent = 0
+    xproc_violations = []
     if agg["selftest_digests"] and not agg["harness_errors"]:
         mism = sorted(set(agg["selftest_mismatch"]))
         idx = sorted(set(sorted(agg["selftest_digests"])[: getattr(mod, "FRESH_SELFTEST", 8)]) | set(mism[:12]))
         try:
             fa = fresh_digests(prop, seed, idx, hashseed="12345")
+            xa = dict(getattr(fresh_digests, "last_xproc", {}))
             fb = fresh_digests(prop, seed, idx, hashseed="999")
+            xb = dict(getattr(fresh_digests, "last_xproc", {}))
             for i in idx:
                 fresh_pairs += 1
                 if fa.get(i) != fb.get(i):
+                    xv = getattr(mod, "XPROC_VIOLATION", None)
+                    if xv is not None and xa.get(i) is not None and xa.get(i) != xb.get(i):
+                        # facts the property needs to be the same in every process differ between two interpreters
+                        xproc_violations.append((i, xa.get(i), xb.get(i)))
+                        continue
                     agg["harness_errors"].append({"run_index": i, "error": "nondeterminism: two pristine executions (PYTHONHASHSEED 12345 / 999) gave digests %s != %s" % (fa.get(i), fb.get(i))})
                 elif fa.get(i) != agg["selftest_digests"][i] or i in mism:
                     history_dependent += 1
@@ -527,6 +563,27 @@ def check(prop, tier="quick", seed=0, runs=None, jobs=None, max_s=None, out=sys.
             break
         if not reported and last_err is not None:
             agg["harness_errors"].append(last_err)
+
+    if xproc_violations:
+        kind, text = mod.XPROC_VIOLATION
+        i, a, b = xproc_violations[0]
+        r = run_seeded(mod, seed, i)
+        sig = "%s:%s" % (prop, kind)
+        known_sig = [k for k in known if k.get("signature") == sig]
+        if known_sig:
+            known_hit[sig] = (known_sig[0], len(xproc_violations), {"run_index": i})
+        else:
+            viol = {"kind": kind, "sig": sig, "detail": "%s; interpreter with PYTHONHASHSEED=12345: %s | with 999: %s" % (text, a[:500], b[:500])}
+            path = write_replay(prop, seed, i, r["choices"], len(r["choices"]), {"violation": viol, "digest": "", "config": r.get("config")}, nrep)
+            doc = json.load(open(path))
+            doc["xproc_check"] = True
+            with open(path, "w") as f:
+                json.dump(doc, f, indent=1, default=str)
+            nrep += 1
+            if xproc_of_replay(prop, path, "4242") != xproc_of_replay(prop, path, "31337"):
+                new_violations.append((sig, len(xproc_violations), path, viol, 0, len(r["choices"]), len(r["choices"])))
+            else:
+                agg["harness_errors"].append({"run_index": i, "error": "interpreter-dependent facts did not reproduce from the replay file %s" % path})
 
     # required probes
     missing = []
